@@ -33,6 +33,8 @@ Allowed rewrites (each is logged per function and reported in the evidence):
       text is ASCII is a precondition of the action (it is what the token's regex admits)
   R12 (with `//@strslice`) `(<str>).bytes()` -> `verif_io::str_bytes_vec(<str>).into_iter()`: iteration over the vector of the
       text's bytes (assumed contract: for ASCII text, byte i = character i); same bytes, same order
+  R13 `for (i, v) in <place>.iter().enumerate() {` -> `for i in 0..<place>.len() { let v = &<place>[i];` (<place> = path of
+      fields; borrowed immutably by the original loop for its whole duration, so the same elements in the same order)
   R10 a local variable named `int` (a Verus builtin type name) is renamed `int_no`
   R9 print arguments: a slice of the source text `&x[a..b]` is logged as an opaque value (its rendering, and the slicing
      itself, are NOT checked); an identifier named by `//@str <ident>` is a String and is logged as verif_io::str_id(&ident)
@@ -299,6 +301,14 @@ class Extractor:
             self.rewrites.append(f"{what}: R3 format!")
             return "verif_io::opaque_string()"
         body = replace_macro(body, ("format",), fm)
+        # R13: `for (i, v) in <place>.iter().enumerate() {` -> `for i in 0..<place>.len() { let v = &<place>[i];`
+        # (Verus has no spec for the Enumerate adaptor).  <place> is a path of fields of a parameter; the original loop
+        # holds `&<place>` for its whole duration, so its body cannot change <place>: same elements, same order, same
+        # early exits.  The spliced invariant then speaks about the index.
+        def enum_loop(m):
+            self.rewrites.append(f"{what}: R13 `for ({m.group(1)}, {m.group(2)}) in {m.group(3)}.iter().enumerate()` -> index loop over 0..{m.group(3)}.len() with `let {m.group(2)} = &{m.group(3)}[{m.group(1)}]`")
+            return f"for {m.group(1)} in 0..{m.group(3)}.len() {{ let {m.group(2)} = &{m.group(3)}[{m.group(1)}];"
+        body = re.sub(r"\bfor\s+\(\s*(\w+)\s*,\s*(\w+)\s*\)\s+in\s+([\w.]+)\.iter\(\)\.enumerate\(\)\s*\{", enum_loop, body)
         # R6: name the ghost iterator of `for _ in <range>` so that a spliced invariant can refer to the trip count
         b3 = re.sub(r"\bfor\s+(_|\w+|\([\w\s,]+\))\s+in\s+(?!verif_it:)", r"for \1 in verif_it: ", body)
         if b3 != body:
